@@ -121,6 +121,10 @@ class Loader:
             return symgeo.module_for(name, fromlist)
         if top == "xarray":
             from . import symxr
+            if name == "xarray.core.indexing":
+                if fromlist and "remap_label_indexers" in fromlist:
+                    raise ImportError("remap_label_indexers")
+                return symxr.core.indexing if fromlist else symxr
             return symxr
         return builtins.__import__(name, globals, locals, fromlist, level)
 
